@@ -19,7 +19,7 @@ import (
 func init() {
 	Props["C13"] = &harness.Prop{
 		ID:             "C13",
-		Rule:           "file_handler.Handle on the main thread over a scripted source under the controlled scheduler with a virtual clock: the source hands over one byte per Read; at EVERY Read (so at every byte position between and inside frames) the explorer may instead inject a run of 1, 2, 3 or 4 consecutive EOFs, 1 or 4 consecutive i/o timeouts, another error, a 3-byte chunk, or two bytes handed over TOGETHER with EOF, with a timeout or with another error (as io.Reader permits); after the data it reports EOF for ever or another error. Streams {frame, junk+frame, frame+frame, frame+truncated, frame+junk+frame, 1077/8}; tolerance settings {timeout 0; timeout 50 ms wait 10 ms; timeout 50 ms wait 0}; message channel capacity {0,1}; all combinations of <=2 (quick) / <=3 (thorough) deviations (fault injections + preemptions), with state-key pruning; an unbounded pass is not attempted because the number of fault placements is unbounded by construction. Non-trivial = distinct schedule/fault trace",
+		Rule:           "file_handler.Handle on the main thread over a scripted source under the controlled scheduler with a virtual clock: the source hands over one byte per Read; at EVERY Read (so at every byte position between and inside frames) the explorer may instead inject a run of 1, 2, 3 or 4 consecutive EOFs, 1 or 4 consecutive i/o timeouts, another error, a 3-byte chunk, or two bytes handed over TOGETHER with EOF, with a timeout or with another error (as io.Reader permits); after the data it reports EOF for ever or another error. Streams {frame, junk+frame, frame+frame, frame+truncated, frame+junk+frame, 1077/8}; tolerance settings {timeout 0; timeout 50 ms wait 10 ms; timeout 50 ms wait 0}; message channel capacity {0,1}; the consumer may pause 200 ms (virtual) before accepting any message (one deviation per pause); all combinations of <=2 (quick) / <=3 (thorough) deviations (fault injections + preemptions), with state-key pruning; an unbounded pass is not attempted because the number of fault placements is unbounded by construction. Non-trivial = distinct schedule/fault trace",
 		Assumptions:    []string{"time is virtual: time.Now/time.Sleep of file_handler are routed to the scheduler's clock; a sleeping thread may be resumed at any later step and the clock then jumps to its wake time", "fault results are io.EOF, an error whose text contains 'i/o timeout', and 'connection reset by peer' as the other error", "'resumes within the tolerance' is judged on the handler's own clock: the run of consecutive EOF/timeout results ends before virtual time since its first result exceeds the configured timeout"},
 		Scenarios:      c13Scenarios,
 		QuickBudget:    60 * time.Second,
@@ -68,7 +68,8 @@ func c13Scenarios(tier string) []*mcrt.Scenario {
 						obs := &c13Obs{src: &faultSrc{data: stream}, log: &consumerLog{}}
 						x.Data = obs
 						msgChan := make(chan handler.Message, capN)
-						consume("consumer", msgChan, obs.log)
+						// the consumer may pause for four times the tolerance before taking a message
+						consumeSlowly("consumer", msgChan, obs.log, 200*time.Millisecond)
 						conf := &jsonconfig.Config{TimeoutOnEOFMilliSeconds: c.timeout, WaitTimeOnEOFMilliseconds: c.wait}
 						fh := filehandler.New(msgChan, conf)
 						obs.err = fh.Handle(T0, bufio.NewReader(obs.src))
